@@ -884,6 +884,8 @@ def _entries_of_slice(ctx, p, by_ref):
             raise Unsupported('iter over symbolic window')
         a, b = p.rng[0].v, p.rng[1].v
     if by_ref:
+        if isinstance(v, Seq) and not v.dense():
+            return tuple((ents[k][0], Ptr(p.root, p.path + (('e', k),))) for k in range(a, b))
         return tuple((ents[k][0], Ptr(p.root, p.path + (('i', CI(k, 64)),))) for k in range(a, b))
     return ents[a:b]
 
@@ -1117,14 +1119,18 @@ def _vec_retain(ctx, p, clos):
 
 @model(r'^std::boxed::Box::<\[.*; \d+\]>::new_uninit$')
 def _box_new_uninit(ctx):
-    n = int(re.search(r'; (\d+)\]', ctx.callee).group(1))
-    return ctx.ex.alloc(ctx.st, tuple([None] * n))
+    # Box<MaybeUninit<[T; n]>> = Box { Unique { NonNull { *const }, PhantomData }, Global }; the pointee is the
+    # MaybeUninit union { uninit: (), value: ManuallyDrop<MaybeDangling<[T; n]>> }
+    p = ctx.ex.alloc(ctx.st, None)
+    return (((p,), UNIT), UNIT)
 
 
 @model(r'^std::boxed::box_assume_init_into_vec_unsafe::<.*>$')
-def _box_into_vec(ctx, p):
+def _box_into_vec(ctx, b):
+    p = b[0][0][0] if isinstance(b, tuple) else b
     v = ctx.deref(p)
-    return Seq.of(list(v))
+    arr = v[1][0][0] if (isinstance(v, tuple) and len(v) == 2 and v[0] is None) else v
+    return Seq.of(list(arr))
 
 
 @model(r'^std::array::from_fn::<.*>$')
